@@ -123,7 +123,14 @@ class Must:
             if r[1] in f.param_index:
                 return f.param_index[r[1]]
             # a local with a single definition that is just (an lvalue of) a parameter stands for it: `h_len = c_vec_len`
-            ds = [rhs for el in f.elems() for (n, op, rhs, via) in defs_in_elem(el.e) if n == r[1]]
+            dm = getattr(f, "_must_defs", None)
+            if dm is None:
+                dm = {}
+                for el in f.elems():
+                    for (n, op, rhs, via) in defs_in_elem(el.e):
+                        dm.setdefault(n, []).append(rhs)
+                f._must_defs = dm
+            ds = dm.get(r[1], [])
             if len(ds) != 1 or ds[0] is None:
                 return None
             r2 = lvalue_root(ds[0])
